@@ -186,8 +186,10 @@ Definition mamf {A} (r : dres A) : M A :=
 (* message_packer.go *)
 
 (* Buffer.Write / WriteByte of each piece starting at writePos: grow doubles the
-   capacity at most once per call; copy() silently truncates, the overrun
-   surfaces at the next grow or at Bytes() *)
+   capacity and, since the repair of DESIGN F-15 (C03, lal 495c27d), extends it
+   to writePos + n when doubling is not enough.  Before that repair copy()
+   silently truncated and the overrun surfaced at the next grow or at Bytes();
+   those two slice expressions are still checked here. *)
 Fixpoint pk_writes (cap wpos : N) (ws : list bytes) : res (N * N) :=
   match ws with
   | [] => Ok (cap, wpos)
@@ -195,7 +197,8 @@ Fixpoint pk_writes (cap wpos : N) (ws : list bytes) : res (N * N) :=
       if cap <? wpos then Panic site_pk_grow
       else
         let n := lenN w in
-        let cap' := if n <=? cap - wpos then cap else (if cap =? 0 then 128 else cap * 2) in
+        let dbl := if cap =? 0 then 128 else cap * 2 in
+        let cap' := if n <=? cap - wpos then cap else (if dbl - wpos <? n then wpos + n else dbl) in
         pk_writes cap' (wpos + n) t
   end.
 
